@@ -573,6 +573,7 @@ func runFileConcurrency(env *ShardEnv, rep *ShardReport) {
 // RunFileStoreShard runs this shard's share of the enumeration.
 func RunFileStoreShard(t *testing.T, env *ShardEnv) *ShardReport {
 	rep := newShardReport(env.Prop, "filestore", env.Shard, env.Tier, env.Seed)
+	liveReport = rep
 	start := time.Now()
 	e, err := newFsEnv()
 	if err != nil {
